@@ -557,3 +557,32 @@ Section Proofs.
   Qed.
 
 End Proofs.
+
+(** The statements are not vacuous: a concrete interleaved run of 2 workers over a
+    2x2 frame reaches a final state; the guard really blocks (row 1 cannot start
+    before row 0 has finished 2 macroblocks); the checker accepts the corresponding
+    event trace and rejects a trace in which the wait asked for x+1 instead of x+2. *)
+Definition ex_f (y x tl t tr l : nat) : nat := 1 + y * 1000 + x * 100 + 7 * tl + 5 * t + 3 * tr + l.
+
+Example run_example :
+  exists s, run nat 0 ex_f 2 2 (init nat 0 2)
+              [LW 0; LW 1; LW 0; LW 0; LW 1; LW 0; LW 1; LW 1; LRec; LRec] = Some s /\
+            final nat 2 s = true /\ tokens nat s = serial_tokens nat 0 ex_f 2 2.
+Proof. eexists. split; [vm_compute; reflexivity|split; vm_compute; reflexivity]. Qed.
+
+Example guard_blocks :
+  exists s, run nat 0 ex_f 2 2 (init nat 0 2) [LW 0; LW 1; LW 0] = Some s /\
+            step nat 0 ex_f 2 2 s (LW 1) = None /\ step nat 0 ex_f 2 2 s (LW 0) <> None.
+Proof. eexists. split; [vm_compute; reflexivity|split; vm_compute; [reflexivity|discriminate]]. Qed.
+
+Definition ex_trace (nd : nat) : list event :=
+  [EClaim 0 0; EClaim 1 1; EBegin 0 0 0; EBegin 1 1 0; EWait 1 0 nd; EStart 0 0 0; EExport 0 0 0;
+   ESignal 0 0 1; EBegin 0 0 1; EStart 0 0 1; EExport 0 0 1; ESignal 0 0 2; EClaim 0 2;
+   EStart 1 1 0; EExport 1 1 0; ESignal 1 1 1; ERecWait 0 2; ERecord 0;
+   EBegin 1 1 1; EWait 1 0 2; EStart 1 1 1; EExport 1 1 1; ESignal 1 1 2; EClaim 1 3;
+   ERecWait 1 2; ERecord 1].
+
+Example trace_accepted : check_trace nat 0 ex_f 2 2 2 (ex_trace 2) = None.
+Proof. vm_compute. reflexivity. Qed.
+Example trace_rejected_wrong_needed : check_trace nat 0 ex_f 2 2 2 (ex_trace 1) = Some 4.
+Proof. vm_compute. reflexivity. Qed.
